@@ -66,6 +66,17 @@ func c20Schema(p *prng.R) (*tspace.Schema, string) {
 		for _, c := range t.Cols {
 			c.Name = cmap[c.Name]
 			if c.Val != nil {
+				// enumerated map keys and values
+				if c.Key.Type == "string" && len(c.Key.Enum) == 0 && c.Key.RefTable == "" && p.Chance(1, 5) {
+					c.Key.Enum = []interface{}{"key-a", "key_b", "c"}
+				}
+				if (c.Val.Type == "string" || c.Val.Type == "integer") && len(c.Val.Enum) == 0 && c.Val.RefTable == "" && p.Chance(1, 5) {
+					if c.Val.Type == "string" {
+						c.Val.Enum = []interface{}{"on", "off", "auto-neg"}
+					} else {
+						c.Val.Enum = []interface{}{0, 1, 7}
+					}
+				}
 				// bounded maps, down to "at most one pair" (still a map, never a pointer)
 				switch p.Intn(6) {
 				case 0, 1:
